@@ -33,7 +33,9 @@ type World struct {
 	MemTransform func(*memswarm.Message) bool
 	ChanOpenOn   func(ci, node int) bool
 
-	Led *Ledger
+	Led       *Ledger
+	askLed    *askLedger
+	AskFaults bool // negative handler returns and too-small buffers are part of the workload
 
 	// run phases: the root task flips these; OnIdle reads them
 	activeOps int  // Tell/Ask calls that have not returned yet, plus senders not yet finished
@@ -90,6 +92,36 @@ func (l *Ledger) Lookup(p []byte) []*Entry { return l.byPayload[string(p)] }
 // Diagnose explains a payload that matches no entry.
 func (l *Ledger) Diagnose(p []byte) string {
 	for _, e := range l.Entries {
+		if len(e.Payload) == len(p) && len(p) >= 64 {
+			// same length: report where it differs
+			first, last, ndiff := -1, -1, 0
+			for i := range p {
+				if p[i] != e.Payload[i] {
+					if first < 0 {
+						first = i
+					}
+					last = i
+					ndiff++
+				}
+			}
+			if ndiff >= len(p)/2 {
+				// block analysis: where in the told message does each 8-byte block of p occur?
+				var moved []string
+				for off := 0; off+8 <= len(p) && len(moved) < 12; off += 8 {
+					if at := bytes.Index(e.Payload, p[off:off+8]); at >= 0 && at != off {
+						moved = append(moved, fmt.Sprintf("%d<-%d", off, at))
+					}
+				}
+				if len(moved) > 3 {
+					return fmt.Sprintf("message %d with its bytes displaced (received offset<-told offset): %v", e.ID, moved)
+				}
+			}
+			if ndiff < len(p)/2 {
+				return fmt.Sprintf("message %d with %d of %d bytes different (first at %d, last at %d)", e.ID, ndiff, len(p), first, last)
+			}
+		}
+	}
+	for _, e := range l.Entries {
 		switch {
 		case len(p) < len(e.Payload) && bytes.HasPrefix(e.Payload, p):
 			return fmt.Sprintf("a truncation (first %d of %d bytes) of message %d", len(p), len(e.Payload), e.ID)
@@ -128,6 +160,7 @@ func NewWorld(st *simcore.Stream, res *simcore.Result, logOn bool, spec string, 
 	w.Led = NewLedger(uint16(res.Seed))
 	sim.Env = w.Net.Actions
 	sim.OnIdle = func() int {
+		w.overdueAsks()
 		if w.Finished {
 			return zsimrt.IdleStop
 		}
@@ -197,15 +230,20 @@ func (w *World) OnDeliver(at, ch int, m Msg) {
 		res.Violate(w.step(), "delivered-on-wrong-channel", "node %d channel %d received message %d which was told on channel %d", at, ch, forMe[0].ID, forMe[0].Chan).With("stack", w.Spec)
 		return
 	}
+	// several entries can share a (short) payload: attribute the delivery to the
+	// matching entry that has been delivered least often
 	okSrc := false
+	var best *Entry
 	for _, e := range rightChan {
-		if w.srcOK(e.From, m.Src) {
-			okSrc = true
-			e.Delivered++
-			if e.Delivered > 1 {
-				res.Probe("duplicate-delivery")
-			}
-			break
+		if w.srcOK(e.From, m.Src) && (best == nil || e.Delivered < best.Delivered) {
+			best = e
+		}
+	}
+	if best != nil {
+		okSrc = true
+		best.Delivered++
+		if best.Delivered > 1 {
+			res.Probe("duplicate-delivery")
 		}
 	}
 	if !okSrc {
